@@ -18,7 +18,6 @@
 //!   cutoff) the outcome is determined and must be exactly {ts < oldest, node ≠ ignore}.
 use std::collections::{BTreeMap, BTreeSet};
 
-use radicle::node::address::Store as _;
 use radicle::node::routing::{InsertResult, Store as _};
 use radicle::node::{Alias, Database, Features, UserAgent};
 use vcommon::{json, Rng, Value};
@@ -152,6 +151,7 @@ impl Suite for Routing {
     /// variant 0: foreign keys ON and the nodes registered in the `nodes` table (as the running node
     /// does); variant 1: foreign keys OFF (as the crate's own routing tests do).
     fn setup(variant: u64) -> Result<State, String> {
+        use radicle::node::address::Store as _;
         let mut db = Database::memory().map_err(|e| e.to_string())?;
         if variant == 0 {
             for n in 0..NN {
